@@ -474,6 +474,8 @@ pub enum Op {
     Swap { user: u8, from: u8, to: u8, amt: Amt },
     SwapThereAndBack { user: u8, from: u8, to: u8, amt: Amt },
     Collect { caller: u8 },
+    /// adversarial: direct `WithdrawLiquidity {}` with a native coin attached (cw20-LP pool)
+    WithdrawDirect { user: u8, denom: u8, amount: Uint128 },
     SetFees { fees: [Uint128; 3] },
     Ramp { a: RampA, dblocks: u64 },
     AdvanceBlock { dheight: u64 },
@@ -503,10 +505,11 @@ fn op() -> BoxedStrategy<Op> {
     prop_oneof![
         2 => (0u8..4, [amt110(), amt110(), amt110()], 0u8..6).prop_map(|(user, a, ord)| Op::Provide { user, a, ord }),
         2 => (0u8..4, 1u16..30000).prop_map(|(user, k)| Op::ProvideBalanced { user, k }),
-        3 => (0u8..4, any::<u16>()).prop_map(|(user, k)| Op::Withdraw { user, k }),
+        3 => (0u8..4, gen::share_sel()).prop_map(|(user, k)| Op::Withdraw { user, k }),
         7 => (0u8..4, 0u8..3, 0u8..3, amt110()).prop_map(|(user, from, to, amt)| Op::Swap { user, from, to, amt }),
         2 => (0u8..4, 0u8..3, 0u8..3, amt110()).prop_map(|(user, from, to, amt)| Op::SwapThereAndBack { user, from, to, amt }),
         1 => (0u8..5).prop_map(|caller| Op::Collect { caller }),
+        1 => (0u8..4, 0u8..3, prop_oneof![Just(1u128), Just(1000), gen::amount(1, 1u128 << 70)]).prop_map(|(user, denom, a)| Op::WithdrawDirect { user, denom, amount: Uint128::new(a) }),
         1 => gen::small_fee_triple().prop_map(|f| Op::SetFees { fees: [Uint128::new(f[0]), Uint128::new(f[1]), Uint128::new(f[2])] }),
         3 => (ramp_a, dblocks).prop_map(|(a, dblocks)| Op::Ramp { a, dblocks }),
         3 => prop_oneof![Just(1u64), Just(100), Just(5_000), Just(9_999), Just(10_000), 1u64..30_000].prop_map(|dheight| Op::AdvanceBlock { dheight }),
@@ -739,6 +742,22 @@ impl Check for TrioHistory {
                     let who = if *caller == 4 { tw.w.owner.clone() } else { tw.user(*caller) };
                     if tw.collect(&who).is_ok() {
                         rec.class("collect_ok");
+                        check_value = true;
+                    }
+                }
+                Op::WithdrawDirect { user, denom, amount } => {
+                    let usr = tw.user(*user);
+                    let d = ["uaaa", "ubbb", "uccc"][(*denom % 3) as usize];
+                    let b: Vec<u128> = (0..3).map(|i| tw.w.bal(&tw.infos[i], &usr)).collect();
+                    let lp_b = tw.lp_balance(&usr);
+                    if tw.withdraw_direct(&usr, d, amount.u128()).is_ok() {
+                        rec.class("withdraw_direct_accepted");
+                        let a: Vec<u128> = (0..3).map(|i| tw.w.bal(&tw.infos[i], &usr)).collect();
+                        let lp_a = tw.lp_balance(&usr);
+                        ensure!(
+                            lp_a < lp_b || (0..3).all(|i| a[i] <= b[i]),
+                            "step {step}: the direct WithdrawLiquidity message with {amount}{d} attached paid the sender out of the pool (balances {b:?} -> {a:?}) although its LP balance did not fall ({lp_b} -> {lp_a})"
+                        );
                         check_value = true;
                     }
                 }
